@@ -1,4 +1,4 @@
 SPECIFICATION Spec
-CONSTANTS Ns = {8, 16} Rs = {2, 3} Spans = {1, 2, 3, 4} MaxT = 2 Nppr = {2}
+CONSTANTS Ns = {16} Rs = {3} Spans = {2, 4} MaxT = 2 Nppr = {2}
 INVARIANTS Inv1 Inv2 Inv3 Inv4 Inv5 Inv6 Inv7
 CHECK_DEADLOCK FALSE
